@@ -545,8 +545,8 @@ var svgPaints = []string{"red", "#fff", "none", "", "url(#g)", "url(#g) red", "u
 var svgHrefs = []string{"#g", "#g2", "#r", "#u", "#self", "#missing", "", "#", "x.svg#a", "data:image/svg+xml,<svg xmlns='http://www.w3.org/2000/svg'/>", "url(#g)", "%zz", "#%zz", "http://[::1", ":", "#\xff", "data:,", "data:image/png;base64,AAAA", "data:image/png;base64,!!!!"}
 var svgStyles = []string{"fill:red", "fill:red;stroke:blue", "fill:", ":red", "fill:url(#g)", "stroke-width:1e400", "fill:red !important", "fill:var(--x)", "--x:red;fill:var(--x)", ";;", "fill", "{", "}", "fill:red;}", "font:1px x", "transform:rotate(1)", "opacity:50%", "opacity:%", "stroke-dasharray:1,2,x", "stroke-dasharray:none", "stroke-dasharray:1 -1", "stroke-dasharray:0 0", "stroke-dashoffset:-1", "display:none", "font-size:0", "font-size:-1", "font-size:1e9px", "font-weight:abc", "font-weight:99999999999999999999", "letter-spacing:x", "text-anchor:x", "marker:url(#m)", "marker-start:url(#m", "mask:url(#k)", "clip-path:url(#c)", "filter:url(#f)", "fill-opacity:1e400", "stroke-miterlimit:-1", "stroke-miterlimit:x"}
 
-func (g *gen) svgAttrVal(name string) string {
-	r := g.r
+// svgPool: the values tried for an SVG attribute (the first three are well-formed)
+func svgPool(name string) []string {
 	var pool []string
 	switch name {
 	case "transform", "gradientTransform", "patternTransform":
@@ -582,6 +582,20 @@ func (g *gen) svgAttrVal(name string) string {
 	default:
 		pool = svgLengths
 	}
+	return pool
+}
+
+func (g *gen) svgWellFormed(name string) []string {
+	pool := svgPool(name)
+	if len(pool) > 3 {
+		pool = pool[:3]
+	}
+	return pool
+}
+
+func (g *gen) svgAttrVal(name string) string {
+	r := g.r
+	pool := svgPool(name)
 	if r.Chance(1, 12) {
 		pool = vlib.Pick(r, [][]string{svgTransforms, svgViewboxes, svgPars, svgPoints, svgPaths, svgLengths, svgPaints, svgHrefs})
 	}
@@ -872,6 +886,10 @@ func (g *gen) generate(n int) []job {
 		add("unescape", s, 0, "pool")
 	}
 	out = append(out, g.deep()...)
+	// deterministic boundary streams (edge.go); they do not count against the random budget
+	edge := g.edge()
+	out = append(out, edge...)
+	n += len(edge)
 	for len(out) < n {
 		switch k := r.Intn(100); {
 		case k < 40: // property validators and expanders
